@@ -406,6 +406,9 @@ package ss2022
 //@   callsite Add: plaintext[0] == 0 && tsValid(int64(be64(plaintext[1:])), arg1) && arg2 == extendedSalt
 //@   callsite Add: arg1 == clocknow()
 //@   callsite ParseTCPRequestVariableLengthHeader: has(s.saltPool.nodeBySalt, extendedSalt)
+// Once the buffer that holds the received bytes is reused for the variable-length header, the fallback (which
+// would hand those bytes over) is off: n is zero before that read.
+//@   callsite ReadFull: n == 0
 
 // ---------------------------------------------------------------------------
 // UDP session server (properties C08, C11): session lookup key and per-session unpacker.
@@ -538,3 +541,18 @@ package ss2022
 //@   loop 0 invariant sscWriteWF(c) && 0 <= n && n + len(b) == pre(len(b)) && samearray(b, pre(b)) && sliceoff(b) == pre(sliceoff(b)) + n
 //@   callsite write: samearray(arg2, b) && sliceoff(arg2) == sliceoff(b) && len(arg2) == min(len(b), 65535) && len(arg2) >= 1
 //@   ensures isnil(err) ==> n == old(len(b))
+
+// Server side: the first Write sends the response header with as much of the data as fits the first chunk
+// and the rest as ordinary chunks; on success every byte was written.
+// (initWrite itself - salt, response header, two sealings into the header buffer - is not verified: its frame
+// and the fact that it installs the write cipher are assumed.)
+//@ func (*ShadowStreamServerConn).initWrite
+//@   trusted
+//@   modifies hb[0:cap(hb)], c.ShadowStreamConn.writeCipher
+//@   ensures isnil(result) ==> !isnil(c.ShadowStreamConn.writeCipher) && fresh(c.ShadowStreamConn.writeCipher)
+
+//@ func (*ShadowStreamServerConn).Write
+//@   requires !isnil(c) && len(c.ShadowStreamConn.writeBuf) == 0 && cap(c.ShadowStreamConn.writeBuf) >= 2 + 16 + 65535 + 16 && !samearray(b, c.ShadowStreamConn.writeBuf)
+//@   requires (len(c.cipherConfig.PSK) == 16 || len(c.cipherConfig.PSK) == 32) && len(c.unsafeResponseStreamPrefix) <= 1 << 20 && c.requestSaltLen == len(c.cipherConfig.PSK)
+//@   requires !isnil(c.ShadowStreamConn.writeCipher) ==> !samearray(c.ShadowStreamConn.writeBuf, c.ShadowStreamConn.writeCipher.nonce[:]) && !samearray(b, c.ShadowStreamConn.writeCipher.nonce[:])
+//@   ensures isnil(err) ==> n == len(b)
